@@ -4,8 +4,11 @@ package main
 // harness vocabulary, sync, sync/atomic, time, fmt, errors, runtime, bytealg, unicode, strconv, ...
 
 import (
+	"encoding/base64"
 	"fmt"
 	"go/types"
+	"net/url"
+	"path/filepath"
 	"sort"
 	"strconv"
 	"strings"
@@ -131,14 +134,32 @@ func buildIntrinsics() map[string]Intrinsic {
 					return string(sha1Sum([]byte(s)))
 				case "b64":
 					return b64Encode([]byte(s))
+				case "urlHost":
+					if u, err := url.Parse(s); err == nil {
+						return u.Host
+					}
+					return ""
 				}
 			}
 			return m.mkSmt(m.uf(WString, name, m.strTerm(a[1])))
 		}
 		t[p+"vUFBool"] = func(m *Machine, fr *Frame, fn *ssa.Function, a []Value) Value {
 			var args []*Term
+			allConc := true
+			var conc []string
 			for _, x := range a[1].([]Value) {
+				if s, ok := x.(string); ok {
+					conc = append(conc, s)
+				} else {
+					allConc = false
+				}
 				args = append(args, m.strTerm(x))
+			}
+			if allConc {
+				// on concrete arguments the library runs the real function: so does the reference
+				if r, ok := nativeUFBool(m.str(a[0]), conc); ok {
+					return m.tf.Bool(r)
+				}
 			}
 			return m.uf(0, m.str(a[0]), args...)
 		}
@@ -1617,4 +1638,25 @@ func sortedKeys(mp map[string]int) []string {
 	}
 	sort.Strings(ks)
 	return ks
+}
+
+func nativeUFBool(name string, args []string) (bool, bool) {
+	switch name {
+	case "urlParseFails":
+		_, err := url.Parse(args[0])
+		return err != nil, true
+	case "match":
+		ok, _ := filepath.Match(args[0], args[1])
+		return ok, true
+	case "matchBadPattern":
+		_, err := filepath.Match(args[0], "")
+		return err != nil, true
+	case "b64Decodes":
+		_, err := base64.StdEncoding.DecodeString(args[0])
+		return err == nil, true
+	case "b64Is16Bytes":
+		v, err := base64.StdEncoding.DecodeString(args[0])
+		return err == nil && len(v) == 16, true
+	}
+	return false, false
 }
